@@ -151,6 +151,11 @@ def gen_stream(rng):
             else:
                 parts.append("")
         lines.append("".join(parts))
+    if rng.random() < 0.12:
+        # lines that end in CR LF (what a child process on Windows, or a network protocol dump, writes): the CR
+        # before the line feed moves nothing visible
+        lines = [l + "\r" if (l and rng.random() < 0.7) else l for l in lines]
+        features.add("crlf")
     stream = "\n".join(lines) + ("\n" if rng.random() < 0.8 else "")
     return stream, features
 
@@ -198,7 +203,7 @@ def wl_fileproxy(ctx, rng, case_no):
                 expected_plain.append(pending + "\n")
                 flushes_with_pending += 1
                 pending = ""
-    expected_stream = "".join(expected_plain)
+    expected_stream = "".join(expected_plain).replace("\r\n", "\n")
     want = sgr.decode(expected_stream)
     wit = {"stream": stream, "ops": [list(o) for o in ops], "features": sorted(features)}
     ctx.count("mon.proxy_histories")
@@ -223,6 +228,8 @@ def wl_fileproxy(ctx, rng, case_no):
     tag = ":flush-of-partial-line" if flushes_with_pending else ""
     if "other_csi" in features:
         tag += ":non-sgr-csi-in-stream"
+    if "crlf" in features:
+        tag += ":crlf-line-endings"
     if got.unexpected:
         ctx.violation("unexpected-sequence-in-output" + tag, dict(wit, unexpected=got.unexpected[:3]))
     elif got.text != want.text:
@@ -260,8 +267,18 @@ def wl_live_redirect(ctx, rng, case_no):
     from rv.model import term
     kind = rng.choice(["live", "progress"])
     W, H = 60, 200
-    console = Console(file=io.StringIO(), width=W, height=H, color_system="truecolor", force_terminal=True,
-                      legacy_windows=False, _environ={})
+    # the console writes to a file of its own, or (no file given) to whatever sys.stdout / sys.stderr is at the moment
+    # of writing - the very streams the display redirects
+    follows = rng.choice([None, None, "stdout", "stderr"])
+    real_streams = (sys.stdout, sys.stderr)
+    fake = {"stdout": io.StringIO(), "stderr": io.StringIO()}
+    if follows:
+        sys.stdout, sys.stderr = fake["stdout"], fake["stderr"]
+        console = Console(stderr=follows == "stderr", width=W, height=H, color_system="truecolor", force_terminal=True,
+                          legacy_windows=False, _environ={})
+    else:
+        console = Console(file=io.StringIO(), width=W, height=H, color_system="truecolor", force_terminal=True,
+                          legacy_windows=False, _environ={})
     pool = S.UniquePool(rng, {"ascii": 1})
     ops = []
     for _ in range(rng.randint(1, 10)):
@@ -281,7 +298,7 @@ def wl_live_redirect(ctx, rng, case_no):
             ops.append(["update", pool.word(3, 6)])
     saved = (sys.stdout, sys.stderr)
     frame = "FRAME"
-    wit = {"display": kind, "ops": ops}
+    wit = {"display": kind, "ops": ops, "console_file": "its own" if not follows else "follows sys.%s" % follows}
     ctx.count("mon.live_redirect_sessions")
     try:
         try:
@@ -307,15 +324,22 @@ def wl_live_redirect(ctx, rng, case_no):
                         disp.update(task, description=frame + " " + op[1], advance=1)
         finally:
             restored = (sys.stdout is saved[0], sys.stderr is saved[1])
-            sys.stdout, sys.stderr = saved
-    except Exception as e:
+            sys.stdout, sys.stderr = real_streams
+    except BaseException as e:
+        sys.stdout, sys.stderr = real_streams
+        if not isinstance(e, Exception):
+            raise
         from rv.core.runner import exc_mechanism
         ctx.violation("live-redirect-raises:" + exc_mechanism(e).split(":", 1)[1], dict(wit, error=repr(e)))
         ctx.case_done(("lr", repr(ops), kind), False)
         return
     if restored != (True, True):
         ctx.violation("stdio-not-restored-after-session", dict(wit, restored=restored))
-    out = console.file.getvalue()
+    out = fake[follows].getvalue() if follows else console.file.getvalue()
+    if follows:
+        other = fake["stderr" if follows == "stdout" else "stdout"].getvalue()
+        if other:
+            ctx.violation("redirected-output-reached-the-other-real-stream:through-%s" % kind, dict(wit, other_stream=other[:200]))
     screen = term.Screen(W, H)
     screen.feed(out)
     if screen.unknown:
